@@ -27,8 +27,8 @@ func Deps(out io.Writer, state *core.BuildState, labels []core.BuildLabel, hidde
 }
 
 // deps looks at all the deps of the given target & recurses into them, printing as appropriate.
-// done records the shallowest level each target has been expanded at; with a level limit a target first reached
-// through a longer path must be expanded again when it is reached through a shorter one.
+// done records the shallowest level each target's own dependencies have been expanded at; with a level limit a
+// target first reached through a longer path must be expanded again when it is reached through a shorter one.
 func deps(out io.Writer, state *core.BuildState, target *core.BuildTarget, done map[core.BuildLabel]int, targetLevel, currentLevel int, hidden, formatdot bool) {
 	if currentLevel == targetLevel {
 		return
@@ -36,27 +36,31 @@ func deps(out io.Writer, state *core.BuildState, target *core.BuildTarget, done 
 	for _, l := range target.DeclaredDependencies() {
 		dep := state.Graph.TargetOrDie(l)
 		for _, l := range dep.ProvideFor(target) {
-			level, seen := done[l]
-			if !state.ShouldInclude(dep) || (seen && (targetLevel < 0 || level <= currentLevel)) {
-				continue // target is filtered out, or already expanded from at least as shallow
+			if !state.ShouldInclude(dep) {
+				continue // target is filtered out
 			}
-			done[l] = currentLevel
-			if dep := state.Graph.TargetOrDie(l); hidden || !dep.HasParent() {
-				// dep is to be printed; either we're printing hidden deps or it has no parent (i.e. is not hidden)
-				if seen {
-					// already printed, we're only here to explore further below it
-				} else if formatdot {
+			dep := state.Graph.TargetOrDie(l)
+			// dep is to be printed if either we're printing hidden deps or it has no parent (i.e. is not hidden)
+			printed := hidden || !dep.HasParent()
+			// The level dep's own dependencies are at: one deeper, except below a hidden dependency of the
+			// current target, which doesn't count as a level of its own.
+			next := currentLevel + 1
+			if !printed && dep.Label.Parent() == target.Label.Parent() {
+				next = currentLevel
+			}
+			level, seen := done[l]
+			if seen && (targetLevel < 0 || level <= next) {
+				continue // already expanded from at least as shallow
+			}
+			done[l] = next
+			if printed && !seen {
+				if formatdot {
 					printTargetDot(out, dep, target)
 				} else {
 					printTarget(out, dep, currentLevel)
 				}
-				deps(out, state, dep, done, targetLevel, currentLevel+1, hidden, formatdot)
-			} else if dep.Label.Parent() == target.Label.Parent() {
-				// This is a hidden dependency of the current target, recurse without increasing depth
-				deps(out, state, dep, done, targetLevel, currentLevel, hidden, formatdot)
-			} else {
-				deps(out, state, dep, done, targetLevel, currentLevel+1, hidden, formatdot)
 			}
+			deps(out, state, dep, done, targetLevel, next, hidden, formatdot)
 		}
 	}
 }
